@@ -239,3 +239,54 @@ class KT:
             else:
                 out.append((sub, ("expr", r)))
         return out
+
+
+# --------------------------------------------------------------------------
+# shared facts used by several mapper properties
+
+MODIFIERS = {"LEFTSHIFT", "RIGHTSHIFT", "LEFTMETA", "RIGHTMETA", "LEFTCTRL", "RIGHTCTRL", "LEFTALT", "RIGHTALT"}
+
+
+def bool_variant_table(ctx, path):
+    """a fn(&KeyCode)->bool written as a match over variants: -> (set of variants mapped to True, set mapped to
+    False, default) or None"""
+    b = ctx.body(path)
+    k = T("param", 1, b.dbg.get(1, ""))
+    tset, fset, default = set(), set(), None
+    for p in mir.walk_function(b):
+        if p.outcome[0] != "return":
+            continue
+        v = mir.const_int(p.outcome[1])
+        if v is None:
+            return None
+        gs = [(a, val) for a, val in p.guards()]
+        if len(gs) != 1 or gs[0][0] != T("variantof", k):
+            return None
+        val = gs[0][1]
+        if isinstance(val, str):
+            (tset if v else fset).add(val)
+        else:
+            default = bool(v)
+    return tset, fset, default
+
+
+def constructs_event(body, variant):
+    """blocks of `body` that build Event::<variant>"""
+    out = []
+    for i in body.live_blocks():
+        for st in body.blocks[i]["stmts"]:
+            if st["k"] == "assign" and st["rv"]["k"] == "agg" and st["rv"].get("adt") == EVENT and st["rv"].get("vname") == variant:
+                out.append((i, st["span"]["line"]))
+    return out
+
+
+def may_press(ctx, roots):
+    """functions in the cone of `roots` (module key_transforms) that construct Event::Pressed"""
+    out = {}
+    for p in sorted(ctx.cone(roots)):
+        if not (p.startswith(MOD) or p.startswith("<" + MOD)):
+            continue
+        sites = constructs_event(ctx.body(p), "Pressed")
+        if sites:
+            out[p] = sites
+    return out
